@@ -26,6 +26,7 @@ package common
 //@   property C15 C02 C08
 //@   requires forall i in 0..len(values) :: values[i] != nil
 //@   ensures value: result != nil && fresh(result) && val(result) >= 0
+//@   ensures size: val(result) < pow2(256)
 //@   modifies nothing
 //@   loop 0 invariant 0 <= $i && $i <= len(values) && len(tmp) == len(values) + 1 + b2i(issig) && fresh(tmp)
 //@   loop 0 invariant issig ==> tmp[0] is bool && tmp[0].(bool)
@@ -86,3 +87,13 @@ package common
 //@   loop 0 invariant p != nil && fresh(p) && bigMod != nil && fresh(bigMod) && offset != nil && fresh(offset) && startVal != nil && fresh(startVal) && val(startVal) == pow2(start) && len(bytes) == (length + 7) / 8 && fresh(bytes) && 1 <= b && b <= 8 && p != bigMod && p != offset && p != startVal && bigMod != offset && bigMod != startVal && offset != startVal
 //@   loop 1 invariant p != nil && fresh(p) && bigMod != nil && fresh(bigMod) && offset != nil && fresh(offset) && startVal != nil && fresh(startVal) && val(startVal) == pow2(start) && len(bytes) == (length + 7) / 8 && fresh(bytes) && 1 <= b && b <= 8 && 0 <= $i && $i <= len(SmallPrimes) && val(p) == val(startVal) + val(offset) && val(offset) >= 0 && p != bigMod && p != offset && p != startVal && bigMod != offset && bigMod != startVal && offset != startVal
 //@   mustfail canary: err != nil
+
+//@ # hash-to-number expansion: one 256-bit limb per started block of 256 bits, none for bitlen 0
+//@ func GetHashNumber
+//@   property C15
+//@   safety
+//@   requires bitlen <= 1048576
+//@   ensures size: result != nil && fresh(result) && 0 <= val(result) && val(result) < pow2(256 * ((bitlen + 255) / 256))
+//@   modifies nothing
+//@   loop 0 invariant k % 256 == 0 && k <= bitlen + 255 && res != nil && fresh(res) && 0 <= val(res) && val(res) < pow2(k) && fresh(tmp) && countIdx == len(tmp) - 1 && countIdx >= 1 && (forall j in 0..len(tmp) :: tmp[j] != nil) && fresh(tmp[countIdx]) && tmp[countIdx] != res
+//@   loop 0 modifies onlyfresh("BV")
